@@ -142,6 +142,11 @@ CHECKS = {
         text="LaTeX, MathML, Unicode, Julia and SBML printers must return or throw a library exception on every generated expression; MathML must parse as XML, LaTeX groups and \\left/\\right pairs must nest, Unicode rows must have equal width, and parse_sbml(sbml(e)) must be eq to e inside the SBML fragment. Exploration.",
         note="Well-formedness is judged only for names the printers can emit verbatim. KF-C44-04 (latex(FiniteSet) emits bare braces after \\left, pinned by test_printing) and KF-C44-07 are listed known findings.",
         variants=["main"]),
+    "C10": dict(
+        engine="hy", technique="property-based testing: a table of every differentiation rule at fixed points in all four quadrants plus generated trees (incl. undefined functions bound to analytic stand-ins, non-holomorphic nodes at real points); oracle = high-precision numerical derivative of the recipe (mpmath.diff at two precisions), plus exact-zero, cache-independence and mixed-partials laws",
+        text="First and second derivatives returned by diff/sdiff are evaluated (Derivative/Subs nodes through numerical differentiation of stand-in functions, which decides the chain rule) and compared with a numerical derivative of the original recipe at complex or real points; diff by an absent symbol must be exactly 0, cached and uncached results eq, mixed partials equal in value. Exploration; the rule table is covered on every run.",
+        note="Reference derivatives are accepted only when two precisions agree to 1e-14; tolerance 1e-9. KF-C10-01 (acosh rule wrong for Re u < 0, pinned by the suite) is a listed known finding.",
+        variants=["main"]),
 }
 
 NOT_APPLICABLE = {}
